@@ -237,9 +237,30 @@ def rule_r2(ctx):
     f = ctx.repo.func(f"{ET}.{CHECK}")
     # returns
     rets = [n for n in own_nodes(f.node) if isinstance(n, ast.Return)]
-    ok = len(rets) == 1 and isinstance(getattr(rets[0], "_parent", None), ast.If) and \
-        norm(rets[0]._parent.test) in ("not self._base_dir", "not self.base_dir")
-    ctx.check("R2", "only return is the empty-base_dir early exit", ok, f, rets[0] if rets else f.node,
+
+    def _empty_base_exit(r) -> bool:
+        return isinstance(getattr(r, "_parent", None), ast.If) and norm(r._parent.test) in ("not self._base_dir", "not self.base_dir")
+
+    def _no_link_count_exit(r) -> bool:
+        """`return` in the OSError handler of the try that reads st_nlink, when everything after that try only tests the link
+        count: the file does not exist, there is no link count to look at, and all other checks have been passed already."""
+        h = getattr(r, "_parent", None)
+        if not (isinstance(h, ast.ExceptHandler) and h.type is not None and (dotted_of(h.type) or "") in ("OSError", "FileNotFoundError") and len(h.body) == 1):
+            return False
+        t = getattr(h, "_parent", None)
+        if not (isinstance(t, ast.Try) and t in f.node.body and not t.finalbody and not t.orelse):
+            return False
+        got = {x.targets[0].id for x in t.body if isinstance(x, ast.Assign) and isinstance(x.targets[0], ast.Name)
+               and isinstance(x.value, ast.Attribute) and x.value.attr == "st_nlink"}
+        if not got or len(t.body) != 1:
+            return False
+        rest = f.node.body[f.node.body.index(t) + 1:]
+        return all(isinstance(x, ast.If) and not x.orelse and any(isinstance(y, ast.Raise) for y in x.body)
+                   and got & {y.id for y in ast.walk(x.test) if isinstance(y, ast.Name)} for x in rest)
+
+    bad = [r for r in rets if not (_empty_base_exit(r) or _no_link_count_exit(r))]
+    ok = sum(1 for r in rets if _empty_base_exit(r)) == 1 and not bad
+    ctx.check("R2", "only return is the empty-base_dir early exit", ok, f, bad[0] if bad else (rets[0] if rets else f.node),
               "the check can return (accept) on a path other than the documented empty-base_dir case",
               how="every `return` classified by its guard")
     env: dict[str, frozenset] = {}
